@@ -90,7 +90,7 @@ DMenu(c) ==
     [] c = "atomic" -> {St("atomic", In("lin"), "none", cell, 1) : cell \in {"c0", "o", "i"}}
                        \cup {St("atomsub", IV, "ieven", "c0", 2), St("atominc", C(1), "none", "i", 1), St("out", In("lin"), "none", "c0", 1),
                              StV("atomic", In("i"), "none", "c0", 1, "ptr"), StV("atomdec", C(1), "none", "i", 1, "row"),
-                             StV("atomsub", IV, "none", "o", 1, "ref")}
+                             StV("atomsub", IV, "none", "o", 1, "ref"), St("atomblk", IV, "none", "i", 1)}
     [] c = "mixed"  -> {St("sh", In("lin"), "none", "c0", 1), St("exset", Sh("own"), "none", "c0", 1),
                         St("atomic", Bin("+", Sh("rev"), EX), "none", "o", 1), St("let", Sh("zero"), "none", "c0", 1),
                         St("outadd", Call(TMP, EX), "sum", "c0", 1)}
@@ -148,6 +148,7 @@ HeadParams(c) ==
     [] c = "mixed"  -> HP(ShapesO, ShapesI, {TRUE}, {TRUE}, GBases, Maps, {NoStyle}, {0}, BOOLEAN)
     [] c = "annot"  -> HP(ShapesO, ShapesI, BOOLEAN, BOOLEAN, {NoE, Bin("+", In("o"), A)}, {"row", "col"},
                           StyleSet({"restrict", "rt", "maxin", "simd", "xbar", "dim"}), {0}, BOOLEAN)
+    [] c = "atomblock" -> HP({<<2>>, <<3>>, <<2, 2>>, <<3, 1>>}, ShapesI, {FALSE}, {FALSE}, {NoE}, Maps, {NoStyle}, {0}, {FALSE})
     [] c = "atomalias" -> HP({<<2>>, <<3>>, <<2, 2>>, <<3, 1>>}, ShapesI, {FALSE}, {FALSE}, {NoE}, Maps, {NoStyle}, {0}, {TRUE})
     [] c = "shflow" -> HP(ShapesO, ShapesI \ {<<1>>}, {TRUE}, {FALSE}, {NoE}, Maps, {NoStyle}, {0}, {FALSE})
     [] c = "tile"   -> HP(Shapes1, Shapes1 \cup {<<4>>}, {FALSE}, {FALSE}, {NoE}, Maps,
@@ -176,6 +177,9 @@ GMenu(c) ==
                        \cup Plain({"out", "outadd", "let"}, ESmall \cup EShOwn \cup EShOth \cup EEx \cup ECtl \cup EBaseU)
                        \cup Cnd({"out", "exadd"}, EShOth \cup EEx \cup ECtl) \cup Rep({"exadd", "outadd"}, EShOth \cup EEx)
                        \cup Atom({IV, In("lin"), EX, Sh("rot"), Sh("own"), TMP, BASE})
+    [] c = "atomblock" -> {St(op, e, cd, cell, n) : op \in {"atomblk", "atomblk", "atomset"}, e \in {IV, In("lin"), A, C(2)},
+                                                     cd \in {"none", "sum"}, cell \in Cells, n \in {1, 2}}
+                          \cup Plain({"out"}, {In("lin")})
     [] c = "atomalias" -> AtomV({IV, In("lin"), A, C(2)}, {"ptr", "ref", "row"}) \cup Plain({"out"}, {In("lin"), IV})
     [] c = "shflow" -> Plain({"sh"}, {In("lin"), Bin("+", In("rot"), IV), Bin("*", Sh("own"), C(2))})
                        \cup Plain({"out", "outadd"}, EShOth) \cup {St("atomic", Sh("rot"), "none", "o", 1)}
@@ -186,11 +190,11 @@ GPlans(c) ==
     [] c \in {"excl", "shared"}   -> {p \in PlanSet(1, 3, 2) \cup PlanSet(1, 2, 3) \cup PlanSet(2, 3, 2) : \E j \in 1..Len(p) : Len(p[j]) >= 2}
                                      \cup {<< <<1, 1, 1, 1>> >>}
     [] c \in {"mixed", "annot"}   -> {p \in PlanSet(1, 3, 3) \cup PlanSet(2, 2, 3) : \E j \in 1..Len(p) : Len(p[j]) >= 2}
-    [] c = "atomalias"            -> PlanSet(2, 2, 2)
+    [] c \in {"atomalias", "atomblock"} -> PlanSet(2, 2, 2)
     [] c = "shflow"               -> {p \in PlanSet(2, 3, 2) : \A j \in 1..Len(p) : Len(p[j]) >= 2}
     [] c = "tile"                 -> PlanSet(2, 1, 3)
 GNoBar(c) == IF c \in {"shared", "mixed", "annot", "shflow"} THEN BOOLEAN ELSE {FALSE}
-GWraps(c) == IF c \in {"shared", "mixed", "control", "atomic", "excl", "shflow", "atomalias"} THEN {"none", "block", "ifo", "ifa"} ELSE {"none"}
+GWraps(c) == IF c \in {"shared", "mixed", "control", "atomic", "excl", "shflow", "atomalias", "atomblock"} THEN {"none", "block", "ifo", "ifa"} ELSE {"none"}
 
 \* simulation: every evaluation of the generator's choice sets sees a fresh random sample of the menus
 \* (TLC's simulator enumerates all successors of a state before it picks one)
@@ -198,11 +202,11 @@ Sample(n, S) == IF Cardinality(S) <= n THEN S ELSE RandomSubset(n, S)
 SHeads(c) == LET p == HeadParams(c) IN
   {h \in {WithHdrs(MkHead(RandomElement(p.Os), RandomElement(p.Is), RandomElement(p.shs), RandomElement(p.exs), RandomElement(p.bases),
                  RandomElement(p.maps), RandomElement(p.styles), RandomElement(p.limits), RandomElement(p.rows))) : j \in 1..8} : HeadOK(h)}
-StmtOps == {"out", "outadd", "sh", "exset", "exadd", "atomic", "atomsub", "atominc", "atomdec", "let"}
+StmtOps == {"out", "outadd", "sh", "exset", "exadd", "atomic", "atomsub", "atominc", "atomdec", "atomblk", "atomset", "let"}
 \* (sampled per kind of statement and per kind of storage read, so that the rarer combinations --
 \*  a read of sh or ex needs an earlier write -- are offered at every step; the partition of the
 \*  menus is a constant, evaluated once)
-GenClasses == {"basic", "control", "excl", "shared", "atomic", "mixed", "annot", "tile", "shflow", "atomalias"}
+GenClasses == {"basic", "control", "excl", "shared", "atomic", "mixed", "annot", "tile", "shflow", "atomalias", "atomblock"}
 MenuParts == [c \in GenClasses |-> LET M == GMenu(c) IN
                [op \in StmtOps |-> << {s \in M : s.op = op /\ "sh" \in Kinds(s.e)},
                                       {s \in M : s.op = op /\ "ex" \in Kinds(s.e) /\ "sh" \notin Kinds(s.e)},
